@@ -186,6 +186,10 @@ def dec_str(h):
     return "" if h == "-" else "".join(chr(int(h[i:i + 6], 16)) for i in range(0, len(h), 6))
 
 
+class NonFinite(ValueError):
+    """an input outside the model's domain (the properties quantify over finite inputs)"""
+
+
 def enc_arr(a):
     """numpy (masked) array -> protocol text, hidden payloads included"""
     import numpy
@@ -194,6 +198,10 @@ def enc_arr(a):
     dt = "i" if data.dtype.kind in "iu" else "f"
     cells = []
     for v, m in zip(data.ravel().tolist(), mask.ravel().tolist()):
+        if isinstance(v, float) and (v != v or v in (float("inf"), float("-inf"))):
+            if not m:
+                raise NonFinite("non-finite visible cell")
+            v = 0.0          # a non-finite number hidden beneath a missing cell: the model holds finite rationals only
         cells.append("%s:%d" % (enc_rat(v), 1 if m else 0))
     return "%s|%s|%s" % (dt, "x".join(str(n) for n in data.shape), ",".join(cells))
 
